@@ -90,7 +90,10 @@ def ev_is_div_special(ev):
 def signature(ev, clause):
     return C.sig([ev["op"], ev["rm"], ev["eb"], ev["sb"], ev["eb2"], ev["sb2"], ev["size"], W.unbits(ev["a"]),
                   W.unbits(ev["b"]) if ev["b"] else -1, ev["iop"], ev["irm"], W.unbits(ev["ia"]),
-                  W.unbits(ev["ib"]) if ev["ib"] else -1, ev["ipos"], ev["how"], clause])
+                  W.unbits(ev["ib"]) if ev["ib"] else -1, ev["ipos"], ev["how"], clause]
+                 # route tags only where they matter, so that the signatures of the plain events are unchanged
+                 + ([ev["so"]] if ev.get("so", "const") != "const" else [])
+                 + (["mix-" + ev["mix"]] if ev.get("mix") and clause.startswith("solved") else []))
 
 
 def jobs_for(tier, seed, mode="claripy"):
@@ -118,6 +121,11 @@ def jobs_for(tier, seed, mode="claripy"):
                 # the concrete backend: sample that route densely here (every 5th case)
                 J[-1]["fresh_every"] = 5
         J.append({**base, "fmt": fmt, "group": "d2", "pool": "quick" if q else "full", "n": nd2})
+        # solved route with one constant operand (reaches Z3 unfolded): same slices in both tiers
+        J.append({**base, "fmt": fmt, "group": "mixed", "pool": "quick", "ops": ["add", "sub"] + W.CMP, "fresh_every": 0})
+        J.append({**base, "fmt": fmt, "group": "mixed", "pool": "quick", "ops": ["mul", "div"], "fresh_every": 0})
+    # float32 events whose sort objects are equal to, but not identical with, FSORT_FLOAT
+    J.append({**base, "fmt": "f", "group": "sortobj", "pool": "quick"})
     nr = 2 if tier == "quick" else 8
     for k in range(nr):
         J.append({**base, "gen": "rand", "seed": seed * 1000 + k, "n": nrand // nr, "rand": 1})
